@@ -1,6 +1,7 @@
 from vf import Query
 
 SRC = ["src/kernel/lmm/System.cpp", "src/kernel/lmm/maxmin.cpp"]
+THOROUGH_MAX = 45  # all quick shapes + a fixed strided sample of the other thorough shapes (lib/vf.py)
 META = {
     "level_text": "Bounded symbolic execution of the real modified-set propagation (System::update_modified_cnst_set[_rec], remove_all_modified_cnst_set) on a fixed "
                   "3-constraint chain, for every value of the visit counter and of the per-variable stamps. Only the structural half of the property (which resources "
